@@ -75,6 +75,10 @@ func main() {
 		}
 		return
 	}
+	if *dump == "successguards" {
+		dumpSuccessGuards(P)
+		return
+	}
 	if *dump == "writeguards" {
 		dumpWriteGuards(P)
 		return
